@@ -332,3 +332,16 @@ def from_sympy(s):
     if isinstance(s, sympy.tan):
         return tan(from_sympy(s.args[0]))
     raise NotImplementedError(f"from_sympy: {type(s)} {s}")
+
+
+def subst_var(e: E, target: E, name: str) -> E:
+    """Replace every occurrence (by object identity) of sub-expression `target` in e by the variable `name`."""
+    if e is target:
+        return V(name)
+    if e.op in ("c", "v"):
+        return e
+    if e.op == "pow":
+        return E("pow", subst_var(e.args[0], target, name), e.args[1])
+    if e.op == "fn":
+        return E("fn", e.args[0], subst_var(e.args[1], target, name))
+    return E(e.op, *[subst_var(a, target, name) for a in e.args])
